@@ -26,6 +26,19 @@ Proof.
   apply (C11_machine t ops i c b (no_opt_init t NO) ND E).
 Qed.
 Print Assumptions C11_partial_noopt.
+(* for ALL 61 types of the sequence class - optional nested sequences included - the children view and the acceptance of every further child
+   are those of a fresh element given the remaining children; only the final-check verdict can differ (sticky activation, refuted below) *)
+Theorem C11_partial_seq_views_and_acceptance : forall k l t, In (k, l) lib_templates -> Classes.is_seq l = true -> stree_of l = Some t ->
+  forall ops i c b, nth_error (ins (mrun t ops)) i = Some (c, b) ->
+  let s1 := fst (mstep (mrun t ops) (MRemove i)) in
+  exists s2, addw (map snd (ins s1)) 0 (AbsSeq.init t) = Some s2 /\ erase s2 = erase (tree s1)
+    /\ AbsSeq.names (AbsSeq.ordered s2) = AbsSeq.names (AbsSeq.ordered (tree s1))
+    /\ (forall a n n', option_map erase (AbsSeq.add n a s2) = option_map erase (AbsSeq.add n' a (tree s1))).
+Proof.
+  intros k l t _ S St ops i c b E. destruct (is_seq_parts l S) as (t' & St' & W & ND). rewrite St in St'. injection St' as <-.
+  apply (C11_machine_all t ops i c b ND E).
+Qed.
+Print Assumptions C11_partial_seq_views_and_acceptance.
 Example C11_nonvacuous : Nat.leb 40 (List.length (filter (fun kl => match stree_of (snd kl) with Some t => Classes.is_seq (snd kl) && negb (has_opt_t t) | None => false end) lib_templates)) = true.
 Proof. vm_compute. reflexivity. Qed.
 
